@@ -121,7 +121,31 @@ def r15a(P, R):
     k = anchor(P, CLI + "schema_loader::schema_kind_by_path",
                lambda g: g.path.startswith(CLI) and (g.sig_output or "").endswith("SchemaFileKind") and any("Path" in t for t in g.sig_inputs))
     lits = set(str_lits_in(k.body)) | {x.get("v") for x in k.walk() if x.get("k") == "PatExpr" and x.get("lk") == "str"}
-    R.check("R15-a", "route-by-extension", {"graphql", "json"} <= lits, "`.graphql` -> SDL, `.json` -> introspection", "extension table is %s" % sorted(lits), loc=k.loc())
+    # the table itself: extension literal -> SchemaFileKind variant; an extension that is not listed takes the catch-all's variant
+    table, default = {}, None
+    for m in k.walk():
+        if m.get("k") == "Match" and m.get("src") == "Normal":
+            for arm in m["arms"]:
+                made = {norm(x.get("def", "")).split("::")[-1] for x in subnodes(arm["body"]) if x.get("k") == "Path" and "SchemaFileKind::" in norm(x.get("def", "") or "")}
+                if len(made) != 1 or "guard" in arm:
+                    continue
+                def plits(p_):
+                    return {x.get("v") for x in subnodes(p_) if x.get("k") == "PatExpr" and x.get("lk") == "str"}
+                ls = plits(arm["pat"])
+                for v in ls:
+                    table.setdefault(v, next(iter(made)))
+                pats = [arm["pat"]] if arm["pat"].get("k") != "Or" else arm["pat"]["ps"]
+                if any(not plits(p_) and "None" not in str(p_.get("def") or "") for p_ in pats):
+                    default = default or next(iter(made))
+    json_to = table.get("json")
+    gql_to = table.get("graphql", default)
+    if json_to and "Introspection" in json_to and gql_to == "GraphQL":
+        R.holds("R15-a", "route-by-extension", "`.json` -> introspection, `.graphql` -> SDL%s" % ("" if "graphql" in table else " (by the default arm)"), loc=k.loc())
+    elif table and (json_to is None or "Introspection" not in json_to or (gql_to is not None and gql_to != "GraphQL")):
+        R.violated("R15-a", "route-by-extension", "the extension table sends `.json` to %s and `.graphql` to %s: a schema given as introspection JSON / SDL is read by "
+                   "the wrong front end" % (json_to or default or "nothing", gql_to or "nothing"), loc=k.loc())
+    else:
+        R.undecided("R15-a", "route-by-extension", "the route selection by extension is not a table this rule reads (literals %s)" % sorted(lits), loc=k.loc())
 
 
 def _kind_expr(pv, e):
